@@ -164,6 +164,35 @@ def lean_accept(trace_file):
     return len(lines) - len(ans), rej, len(ans), lrej
 
 
+def lean_sections(sec_file):
+    """K3(ii): replays the section scripts of the sampled executions through Conc.*Sec in the driver; returns
+    (n_executions, n_sections, mismatches[list of dict])"""
+    if not os.path.exists(sec_file) or os.path.getsize(sec_file) == 0:
+        return 0, 0, []
+    blocks = open(sec_file).read().split("X begin\n")[1:]
+    reqs, exps, owner = [], [], []
+    for bi, b in enumerate(blocks):
+        for l in b.splitlines():
+            if not l or l.startswith("X end"):
+                continue
+            r, _, e = l.partition("\t")
+            reqs.append(r)
+            exps.append(e)
+            owner.append(bi)
+    rc, out, dt = C.sh([C.DRIVER], input="\n".join(reqs) + "\n", timeout=1800)
+    ans = out.splitlines()
+    bad, seen = [], set()
+    if len(ans) != len(reqs):
+        bad.append({"what": "driver answered %d of %d section requests" % (len(ans), len(reqs))})
+    for r, e, a, bi in zip(reqs, exps, ans, owner):
+        if e != "*" and e != a and bi not in seen:
+            seen.add(bi)
+            script = [x.partition("\t")[0] for x in blocks[bi].splitlines() if x and not x.startswith("X end")]
+            bad.append({"request": r, "implementation": e[:300], "model": a[:300], "script": script})
+    nsec = sum(1 for r in reqs if r.startswith("m sec "))
+    return len(blocks), nsec, bad
+
+
 def lean_lin(history_request):
     """verdict of the verified checker on one history: 'ok', 'NOTLIN', 'skip' or 'bad ...'"""
     rc, out, dt = C.sh([C.DRIVER], input=history_request + "\n", timeout=600)
@@ -210,10 +239,12 @@ def explore(tier, seed, programs=None, with_traces=True):
         c, p, runs, tf = j
         rc, res, tail, dt = run_program(bins[c][1], p, runs)
         ntr, rej, nh, lrej = lean_accept(tf) if with_traces else (0, [], 0, [])
-        try:
-            os.remove(tf)
-        except OSError:
-            pass
+        nx, nsec, sbad = lean_sections(tf + ".sec") if with_traces else (0, 0, [])
+        for f_ in (tf, tf + ".sec"):
+            try:
+                os.remove(f_)
+            except OSError:
+                pass
         # a history the harness's own search calls non-linearizable is reported only if the verified checker agrees
         for r in res:
             if r.get("lin") and str(r.get("why", "")).startswith("history is not linearizable"):
@@ -221,11 +252,16 @@ def explore(tier, seed, programs=None, with_traces=True):
                 r["lean_verdict"] = v
                 if v.startswith("ok"):
                     r["disagreement"] = "the C++ search rejects a history that the verified checker linearizes: " + v
-        return c, p, runs, rc, res, tail, ntr, rej, nh, lrej
+        return c, p, runs, rc, res, tail, ntr, rej, nh, lrej, (nx, nsec, sbad)
 
     with cf.ThreadPoolExecutor(max_workers=14) as ex:
-        for c, p, runs, rc, res, tail, ntr, rej, nh, lrej in ex.map(work, jobs):
+        for c, p, runs, rc, res, tail, ntr, rej, nh, lrej, (nx, nsec, sbad) in ex.map(work, jobs):
             out["histories_checked_in_lean"] = out.get("histories_checked_in_lean", 0) + nh
+            out["section_replays"] = out.get("section_replays", 0) + nx
+            out["sections_replayed"] = out.get("sections_replayed", 0) + nsec
+            for x in sbad[:2]:
+                x.update({"program": p[0], "config": "S=%d M=%d" % c, "threads": p[4], "prefill": p[3], "hash": p[1], "init_n": p[2]})
+                out.setdefault("section_mismatches", []).append(x)
             for x in lrej[:2]:
                 out["failures"].append({"program": p[0], "config": "S=%d M=%d" % c, "threads": p[4], "prefill": p[3], "hash": p[1], "init_n": p[2],
                                         "run": "", "first_seed": None, "schedule": "", "history": x,
